@@ -5,11 +5,11 @@ import stages
 import stage_c16
 import stage_wire
 
-TRACE_FAMILIES = ["send", "recv", "lifecycle", "connect", "caps", "keepalive", "crash", "session", "model", "modelrecv"]
+TRACE_FAMILIES = ["send", "recv", "lifecycle", "connect", "caps", "keepalive", "crash", "session", "model", "modelrecv", "lifecycle@tcp", "connect@tcp"]
 
 # scenarios per family
-SIZES = dict(quick=dict(model=1, modelrecv=1, session=700, misbehave=500, crash=1, send=1600, recv=1200, lifecycle=1200, connect=900, caps=900, keepalive=700),
-             thorough=dict(model=100000, modelrecv=100000, session=12000, misbehave=8000, crash=100000, send=40000, recv=25000, lifecycle=25000, connect=15000, caps=12000, keepalive=12000))
+SIZES = dict(quick=dict(**{'lifecycle@tcp': 400, 'connect@tcp': 300}, model=1, modelrecv=1, session=700, misbehave=500, crash=1, send=1600, recv=1200, lifecycle=1200, connect=900, caps=900, keepalive=700),
+             thorough=dict(**{'lifecycle@tcp': 8000, 'connect@tcp': 5000}, model=100000, modelrecv=100000, session=12000, misbehave=8000, crash=100000, send=40000, recv=25000, lifecycle=25000, connect=15000, caps=12000, keepalive=12000))
 
 TRACE_ASSUME = [
     "the simulated broker/network of harness/ (conformant MQTT 5 broker, transport faults only) stands for the environment",
